@@ -23,6 +23,10 @@ func makeTlsConfig(cfg *TlsConfig, requireCert bool) (*tls.Config, error) {
 			return nil, fmt.Errorf("failed to load ca, %w", err)
 		}
 		c.RootCAs = pool
+		c.ClientCAs = pool // for servers that verify client certificates
+	}
+	if cfg.VerifyClientCert {
+		c.ClientAuth = tls.RequireAndVerifyClientCert
 	}
 
 	if cfg.DebugUseTempCert {
